@@ -25,14 +25,14 @@ type Ob struct {
 
 // Run collects the obligations of one property check.
 type Run struct {
-	Property string
-	Tier     string
-	Obs      []Ob
-	Counts   map[string]int // measured instance counts per rule
-	Floors   map[string]int // hand-confirmed minimum instance counts
-	Notes    []string
+	Property  string
+	Tier      string
+	Obs       []Ob
+	Counts    map[string]int // measured instance counts per rule
+	Floors    map[string]int // hand-confirmed minimum instance counts
+	Notes     []string
 	FuncsSeen map[string]bool
-	start    time.Time
+	start     time.Time
 }
 
 func NewRun(property, tier string) *Run {
@@ -71,7 +71,9 @@ func (r *Run) Check(cond bool, rule, key, pos, how, msg string) {
 // Floor declares the minimum instance count of a rule (vacuity guard).
 func (r *Run) Floor(rule string, n int) { r.Floors[rule] = n }
 
-func (r *Run) Note(format string, args ...any) { r.Notes = append(r.Notes, fmt.Sprintf(format, args...)) }
+func (r *Run) Note(format string, args ...any) {
+	r.Notes = append(r.Notes, fmt.Sprintf(format, args...))
+}
 
 func (r *Run) Saw(fn string) { r.FuncsSeen[fn] = true }
 
@@ -198,23 +200,23 @@ func (r *Run) WriteEvidence(dir string, meta PropertyMeta, out Outcome, seed int
 		notes = []string{}
 	}
 	cov := map[string]any{
-		"explanation":         meta.Explanation,
-		"evaluations":         obligations,
-		"distinct_nontrivial": len(nontrivial),
-		"rule":                "one evaluation = one obligation (rule instance on one construct of /repo's current source) enumerated by the static rules listed in 'rules'; non-trivial = needed a guard fact, a table comparison or a derived class to discharge (distinct by rule+construct key)",
-		"samples":             samples,
-		"obligations":         obligations,
-		"discharged":          discharged,
-		"checker_cmd":         checkerCmd,
-		"trusted_base":        tb,
-		"rules":               meta.Rules,
+		"explanation":          meta.Explanation,
+		"evaluations":          obligations,
+		"distinct_nontrivial":  len(nontrivial),
+		"rule":                 "one evaluation = one obligation (rule instance on one construct of /repo's current source) enumerated by the static rules listed in 'rules'; non-trivial = needed a guard fact, a table comparison or a derived class to discharge (distinct by rule+construct key)",
+		"samples":              samples,
+		"obligations":          obligations,
+		"discharged":           discharged,
+		"checker_cmd":          checkerCmd,
+		"trusted_base":         tb,
+		"rules":                meta.Rules,
 		"rule_instance_counts": r.Counts,
 		"rule_instance_floors": r.Floors,
-		"functions_analysed":  len(funcs),
-		"functions":           funcs,
-		"known_findings":      len(out.Known),
-		"notes":               notes,
-		"exhaustive":          true,
+		"functions_analysed":   len(funcs),
+		"functions":            funcs,
+		"known_findings":       len(out.Known),
+		"notes":                notes,
+		"exhaustive":           true,
 	}
 	for k, v := range extra {
 		cov[k] = v
